@@ -13,7 +13,7 @@ order; EVERY attribute access `x.f` re-reads the object behind `x` from the curr
 nothing is cached, normalised or reordered.  Equality with the hand model is the business of
 coq/srctie/LfuGenEquiv.v.
 
-ENCODING RULES (each is part of the trusted base of this tie; listed in coq/theories/Lfu/NOTES_srctie.md)
+ENCODING RULES (each is part of the trusted base of this tie; listed in coq/theories/Lfu/NOTES.md, section Source tie)
  E1  objects: a CacheNode / FreqNode reference is `option id` (None = Python None); `x.f` on a reference is
      `do t <- getc/getf h x; ... (field t)` (AttributeError on None / dangling = the monad's None);
      `x.f = e` is `do h <- putc/putf h x (with_f e)`; the class of every expression is given by the static
@@ -111,6 +111,11 @@ COQTY = {"C": "option id", "F": "option id", "none": "option id", "nat": "nat", 
          "bool": "bool", "oval": "option val", "tupFF": "(option id * option id)"}
 
 
+# names with a fixed meaning in the translation: a parameter / local of that name would shadow it in Python
+RESERVED = {"not_found", "len", "CacheNode", "FreqNode", "LFUCache", "DummyLFU", "dict_", "Lock", "defaultdict", "SetOrdered", "mean",
+            "dict", "isinstance", "type", "id", "hash", "getattr", "setattr"}
+
+
 def gname(cls, meth):
     if meth == "__init__":
         return "g_%s_init" % cls
@@ -161,8 +166,8 @@ class Method:
             bad(fn, "%s.%s takes %d parameters, expected %d" % (cls, fn.name, len(names) - 1, len(tys)))
         if len(a.defaults) != len(defaults) or any(not (isinstance(d, ast.Constant) and d.value is e) for d, e in zip(a.defaults, defaults)):
             bad(fn, "changed parameter defaults of %s.%s" % (cls, fn.name))
-        if len(set(names)) != len(names):
-            bad(fn, "duplicate parameter")
+        if len(set(names)) != len(names) or set(names) & RESERVED:
+            bad(fn, "duplicate parameter / parameter with a reserved name")
         self.selfname = names[0]
         self.params = list(zip(names[1:], tys))
         self.rtname = next((n for n, t in self.params if t == "rt"), None)
@@ -294,9 +299,7 @@ class Method:
             if isinstance(op, (ast.Is, ast.IsNot, ast.Eq, ast.NotEq)):
                 neg = isinstance(op, (ast.IsNot, ast.NotEq))
                 if refty(y1) and refty(y2):
-                    if isinstance(op, (ast.Is, ast.IsNot)) and y2 != "none" and y1 != "none":
-                        pass
-                    join(y1, y2, e)
+                    join(y1, y2, e)                                                 # same class (or None)
                     t = "(oid_eqb %s %s)" % (t1, t2)
                 elif (y1, y2) == ("nat", "nat") and isinstance(op, (ast.Eq, ast.NotEq)):
                     t = "(Nat.eqb %s %s)" % (t1, t2)
@@ -525,8 +528,8 @@ class Method:
         out = list(ls)
         for tg in s.targets:                                                        # E4: left to right
             if isinstance(tg, ast.Name):
-                if tg.id == self.selfname or tg.id == self.rtname or tg.id in dict(self.params):
-                    bad(tg, "assignment to a parameter")
+                if tg.id == self.selfname or tg.id == self.rtname or tg.id in dict(self.params) or tg.id in RESERVED:
+                    bad(tg, "assignment to a parameter / to a reserved name")
                 out.append("let %s := %s in" % (self.var(tg.id), t))
                 env[tg.id] = y
             elif isinstance(tg, ast.Attribute):
@@ -697,6 +700,7 @@ class Translator:
         self.methods = {}
         self.emitted = {}
         self.stack = []
+        self.outside_seen = set()
 
     def ret_of(self, cls, meth, node):
         self.need(cls, meth, node)
@@ -748,11 +752,11 @@ class Translator:
                 if not isinstance(s, ast.FunctionDef):
                     bad(s, "class-level statement in %s that is not a method" % cn)
                 key = (cn, s.name)
-                if key in self.methods or key in getattr(self, "outside_seen", set()):
+                if key in self.methods or key in self.outside_seen:
                     bad(s, "method %s.%s defined twice" % key)
                 if key in OUTSIDE:                                                   # S4
                     self.check_readonly(s, key)
-                    self.__dict__.setdefault("outside_seen", set()).add(key)
+                    self.outside_seen.add(key)
                     continue
                 if key not in SIGS:
                     bad(s, "extra method %s.%s (it may touch the modelled state)" % key)
@@ -761,11 +765,13 @@ class Translator:
             for n in ast.walk(c):
                 if isinstance(n, ast.Name) and n.id == "DummyLFU":
                     bad(n, "DummyLFU referenced from %s" % cn)
+        for n in ast.walk(classes["DummyLFU"]):                                      # S1: DummyLFU is skipped, so it must not touch the fragment
+            if isinstance(n, ast.Name) and n.id in ("CacheNode", "FreqNode", "LFUCache", "globals", "setattr", "exec", "eval", "vars", "__import__"):
+                bad(n, "class DummyLFU refers to %s" % n.id)
         missing = [k for k in SIGS if k not in self.methods]
         if missing:
             bad(self.tree, "missing methods %s" % missing)
-        if set(getattr(self, "outside_seen", set())) != OUTSIDE:
-            pass                                                                     # the two observers may disappear
+        # (the two observers of S4 may disappear: nothing translated depends on them)
         self.order = []
         for cn in ("CacheNode", "FreqNode", "LFUCache"):
             for s in classes[cn].body:
@@ -835,7 +841,15 @@ def translate(repo):
         raise Unsupported("%s: does not parse: %s" % (SRC, e))
     check_helper(repo)
     defs = Translator(tree).run()
-    return HEADER % (SRC, HELPER) + "\n".join(defs)
+    text = HEADER % (SRC, HELPER) + "\n".join(defs)
+    # self-check: the generated definitions use the hand model's types and primitives only, none of its methods
+    import re
+    body = re.sub(r"\(\*.*?\*\)", "", text, flags=re.S)
+    m = re.search(r"(?<![\w.])(free_myself|count_caches|fremove|pop_head_cache|append_cache_to_tail|insert_after_me|insert_before_me|"
+                  r"move_forward|dump_cache|create_cache_node|hget|hset|hstep|hrun|new_cnode|new_fnode|hempty)\b", body)
+    if m:
+        raise Unsupported("internal: generated text refers to the hand model's %s" % m.group(1))
+    return text
 
 
 if __name__ == "__main__":
